@@ -233,6 +233,7 @@ func runC01(c *Ctx) {
 	checkTruncationOrder(c, p)
 	checkNoCandidateCap(c, p)
 	checkFirstPassAdmission(c, p)
+	checkEveryRangeScored(c, p)
 	// shared with C06: a copy is tokenized like its source only if the text of a token is computed for that token, at its own
 	// position in its line - not taken from a cache filled by an earlier occurrence of the word elsewhere (R06.5)
 	checkTokenTextProvenance(c, p)
@@ -1373,6 +1374,8 @@ func runC06(c *Ctx) {
 	checkDictLookupsOnCleanWord(c, p)
 	checkTokenizerCallArgsAgree(c, p)
 	checkRejectedCandidateHasNoEffect(c, p)
+	// shared with C11: a notice is recognised on the cleaned-up form of its line as well, for every line (R11.10)
+	checkNoticeDecisionOnCleanedLine(c, p)
 	// shared with C03: an inserted notice is reported on exactly its line only if its pseudo-match is built once and
 	// never extended by a neighbouring notice (R03.13)
 	checkMatchImmutable(c, p)
@@ -3148,6 +3151,7 @@ func checkNoticeDecisionOnCleanedLine(c *Ctx, p *core.Prog) {
 			return false
 		}
 		nTests, onClean := 0, false
+		condClean := ""
 		var pos token.Pos
 		for _, call := range core.CallsIn(fn) {
 			name := core.StaticCalleeName(call.Common())
@@ -3158,12 +3162,78 @@ func checkNoticeDecisionOnCleanedLine(c *Ctx, p *core.Prog) {
 			pos = call.Pos()
 			if dep(call.Common().Args[1], map[ssa.Value]bool{}, 0) {
 				onClean = true
+				// ... for every line: the cleaned form is not replaced by a constant on some path, and the test stands behind the
+				// loop over the patterns and the other pattern tests only
+				if ph, isPhi := core.Unspill(call.Common().Args[1]).(*ssa.Phi); isPhi {
+					for _, e := range ph.Edges {
+						if _, isK := e.(*ssa.Const); isK {
+							condClean = "the cleaned line is a constant on some path (" + p.Pos(call.Pos()) + ")"
+						}
+					}
+				}
+				for d := range core.NewPostDom(fn).TransitiveControlDeps()[call.Block()] {
+					ifi, isIf := d.Instrs[len(d.Instrs)-1].(*ssa.If)
+					if !isIf {
+						continue
+					}
+					isHeader := false
+					for _, pr := range d.Preds {
+						if d.Dominates(pr) {
+							isHeader = true
+						}
+					}
+					okC := isHeader
+					var isPatternTest func(v ssa.Value, d int) bool
+					isPatternTest = func(v ssa.Value, d int) bool {
+						if d > 3 {
+							return false
+						}
+						switch y := v.(type) {
+						case *ssa.Call:
+							n := core.StaticCalleeName(y.Common())
+							return n == "(*regexp.Regexp).MatchString" || n == "(*regexp.Regexp).Match"
+						case *ssa.Phi:
+							for _, e := range y.Edges {
+								if _, isK := e.(*ssa.Const); isK {
+									continue
+								}
+								if !isPatternTest(e, d+1) {
+									return false
+								}
+							}
+							return true
+						case *ssa.UnOp:
+							return y.Op == token.NOT && isPatternTest(y.X, d+1)
+						}
+						return false
+					}
+					if isPatternTest(ifi.Cond, 0) {
+						okC = true
+					}
+					// the guard for an empty line buffer at the head of the function
+					if bo, isBo := ifi.Cond.(*ssa.BinOp); isBo {
+						if cl, isCall := bo.X.(*ssa.Call); isCall {
+							if bi, isB := cl.Call.Value.(*ssa.Builtin); isB && bi.Name() == "len" {
+								if _, isPrm := core.Unspill(cl.Call.Args[0]).(*ssa.Parameter); isPrm {
+									okC = true
+								}
+							}
+						}
+					}
+					if !okC && condClean == "" {
+						condClean = "the test of the cleaned line stands behind the condition at " + p.Pos(ifi.Cond.Pos())
+					}
+				}
 			}
 		}
 		if nTests == 0 {
 			continue
 		}
 		n++
+		if onClean {
+			c.R.Check(condClean == "", "R11.10", core.ShortFn(fn)+": the cleaned-up form of every line is tested against the patterns", p.Pos(pos), "the test of the cleaned line is reached from the loop over the patterns and the other pattern tests only",
+				condClean+": for the lines on the other side of that condition only the words as written are tested - a notice whose words merely lose punctuation in the clean-up (\"Copyright: 2009-2011 John Doe\") is not recognised, its words become tokens and no Copyright match is reported")
+		}
 		c.R.Check(onClean, "R11.10", core.ShortFn(fn)+": whether a line is a notice is (also) decided on its cleaned-up form", p.Pos(pos), "a pattern test takes the line built from the results of the token clean-up",
 			"the patterns are only tested against the words as written, while Normalize writes the cleaned-up words: a line whose punctuation keeps the patterns from matching (\"Copyright: 2013, ...\", \"2006-01-27.\") is kept by Match but dropped when the normalised text is matched, so the two disagree")
 	}
@@ -3807,6 +3877,64 @@ func runC17(c *Ctx) {
 	}
 	c.R.RequireMin("R17.1", "contributions to token Text", n, 1)
 
+	// R17.12 the tokens come out in the order of the text: a token that is built and appended in one step (a punctuation mark, any
+	// other one-character token) is appended only behind the test whether a word is still pending - the pending word starts
+	// earlier in the text and has to go first. A new case that appends without that test puts the word it interrupts behind
+	// the characters that follow it.
+	{
+		nL, bad := 0, ""
+		for _, lit := range structLits([]*ssa.Function{tk}, "tokenizer.token") {
+			off, hasOff := lit.fields["Offset"]
+			_, hasText := lit.fields["Text"]
+			if !hasOff || !hasText {
+				continue
+			}
+			if k, isK := core.ConstInt(off); isK && k < 0 {
+				continue // the pending word being (re)started
+			}
+			// the append that takes this literal
+			for _, r := range *lit.alloc.Referrers() {
+				st, isSt := r.(*ssa.Store)
+				if !isSt || st.Val != ssa.Value(lit.alloc) {
+					continue
+				}
+				nL++
+				pendingTested := false
+				for _, f := range core.FactsAt(st.Block()) {
+					cmp, ok := f.AsCmp()
+					if !ok {
+						continue
+					}
+					for _, pair := range [][2]ssa.Value{{cmp.X, cmp.Y}, {cmp.Y, cmp.X}} {
+						if k, isK := core.ConstInt(pair[1]); isK && (k == -1 || k == 0) && strings.HasSuffix(core.AP(pair[0]), ".Offset") {
+							pendingTested = true
+						}
+					}
+				}
+				// the test may also have been taken and joined again: a block that tests the pending word dominates the append
+				if !pendingTested {
+					for d := st.Block().Idom(); d != nil; d = d.Idom() {
+						if ifi, isIf := d.Instrs[len(d.Instrs)-1].(*ssa.If); isIf {
+							if bo, isBo := ifi.Cond.(*ssa.BinOp); isBo {
+								for _, pair := range [][2]ssa.Value{{bo.X, bo.Y}, {bo.Y, bo.X}} {
+									if k, isK := core.ConstInt(pair[1]); isK && (k == -1 || k == 0) && strings.HasSuffix(core.AP(pair[0]), ".Offset") && loopDepthOf(d) == loopDepthOf(st.Block()) {
+										pendingTested = true
+									}
+								}
+							}
+						}
+					}
+				}
+				if !pendingTested && bad == "" {
+					bad = p.Pos(lit.alloc.Pos())
+				}
+			}
+		}
+		if nL > 0 {
+			c.R.Check(bad == "", "R17.12", "Tokenize: a token built in one step is appended behind the test for a pending word", p.Pos(tk.Pos()), fmt.Sprintf("%d one-step tokens", nL),
+				"the token built at "+bad+" is appended without testing whether a word is pending: the word it interrupts is appended later, so the tokens are not in the order of the text and a word continued behind it has a text that is not in the input")
+		}
+	}
 	// R17.5 every non-space character is covered: a path through one iteration of the scan loop on which the decoded rune
 	// contributes to no token's Text has taken the true branch of unicode.IsSpace(r) - and of nothing weaker. (Decided for
 	// the per-rune shape, where contributing means passing a store to a Text field.)
@@ -5643,6 +5771,59 @@ func checkCandidateLinesTraversed(c *Ctx, p *core.Prog) {
 	}
 }
 
+// checkEveryRangeScored: R01.11. Every range of the input that the search set proposes for a document is scored: between the
+// loop over the proposed ranges and the call of score stand only the loops themselves and trace tests. A cheaper pre-test (a
+// count of unknown words against an error budget) rejects ranges the score would accept - and what counts as unknown depends
+// on every document of the corpus, so an unrelated document flips the result.
+func checkEveryRangeScored(c *Ctx, p *core.Prog) {
+	mf := p.Func(v2pkg, "(*Classifier).match")
+	sc := p.Func(v2pkg, "(*Classifier).score")
+	if mf == nil || sc == nil {
+		return
+	}
+	n, bad := 0, ""
+	for _, fn := range pkgClosure(mf, v2pkg) {
+		cd := core.NewPostDom(fn).TransitiveControlDeps()
+		for _, call := range core.CallsIn(fn) {
+			if call.Common().StaticCallee() != sc {
+				continue
+			}
+			n++
+			for d := range cd[call.Block()] {
+				ifi, ok := d.Instrs[len(d.Instrs)-1].(*ssa.If)
+				if !ok {
+					continue
+				}
+				isHeader := false
+				for _, pr := range d.Preds {
+					if d.Dominates(pr) {
+						isHeader = true
+					}
+				}
+				if isHeader {
+					continue
+				}
+				if cl, isCall := ifi.Cond.(*ssa.Call); isCall && isTraceFn(cl.Call.StaticCallee()) {
+					continue
+				}
+				if _, isErr := ifi.Cond.(*ssa.BinOp); isErr {
+					if bo := ifi.Cond.(*ssa.BinOp); bo.X.Type().String() == "error" {
+						continue
+					}
+				}
+				if bad == "" {
+					bad = core.ShortFn(fn) + ": " + p.Pos(ifi.Cond.Pos()) + " (" + eng.Describe(ifi.Cond) + ")"
+				}
+			}
+		}
+	}
+	if n == 0 {
+		return
+	}
+	c.R.Check(bad == "", "R01.11", "match: every proposed range is scored", v2pkg, fmt.Sprintf("%d calls of score, each reached from its loops without a further test", n),
+		"whether a proposed range is scored depends on "+bad+": ranges that the score would accept are dropped by a cheaper pre-test - one that counts words unknown to the dictionary depends on the whole corpus, so an unrelated document changes the Results of the same input")
+}
+
 // checkIndexKeysAgree: R05.12. An index that match fills in one loop and consults in another is consulted under the keys it is
 // filled under: the loop that looks candidates up in a map and the loop that registers a candidate in the same map run over the
 // same keys - same start, same bound, same step, same key expression. Keys that are registered but never looked up (or the
@@ -5999,6 +6180,48 @@ func checkRejectedCandidateHasNoEffect(c *Ctx, p *core.Prog) {
 			if K == nil {
 				c.R.Info("R06.20", core.ShortFn(fn)+": the verdict of the current candidate", p.Pos(fn.Pos()), "not decided: the value stored for the current candidate could not be identified")
 				continue
+			}
+			// R06.21: every candidate gets its verdict: the place where the current candidate's verdict is used (the test of
+			// K, or the store of K) lies on every way round the loop over the candidates - no `continue` in front of it.
+			{
+				var kb *ssa.BasicBlock
+				for _, b := range fn.Blocks {
+					if ifi, isIf := b.Instrs[len(b.Instrs)-1].(*ssa.If); isIf && core.Unspill(ifi.Cond) == K {
+						kb = b
+					}
+				}
+				if kb == nil {
+					for _, o := range own {
+						if core.Unspill(o.store.Val) == K {
+							kb = o.store.Block()
+						}
+					}
+				}
+				if kb != nil {
+					// the outermost loop around kb
+					var hdr *ssa.BasicBlock
+					for h := kb; h != nil; h = h.Idom() {
+						for _, pr := range h.Preds {
+							if h.Dominates(pr) && naturalLoop(h)[kb] {
+								hdr = h
+							}
+						}
+					}
+					if hdr != nil {
+						skipped := ""
+						loop := naturalLoop(hdr)
+						for _, pr := range hdr.Preds {
+							if loop[pr] && !(kb == pr || kb.Dominates(pr)) {
+								skipped = p.Pos(pr.Instrs[len(pr.Instrs)-1].Pos())
+								if skipped == "-" && len(pr.Instrs) > 1 {
+									skipped = p.Pos(pr.Instrs[0].Pos())
+								}
+							}
+						}
+						c.R.Check(skipped == "", "R06.21", core.ShortFn(fn)+": every candidate reaches its verdict", p.Pos(fn.Pos()), "the use of the verdict dominates every way back to the head of the loop over the candidates",
+							"the loop over the candidates comes round again (from "+skipped+") without passing the verdict of the current candidate: a candidate that is skipped is never retained - a notice or date behind the last line that holds a word loses its Copyright match")
+					}
+				}
 			}
 			bad := ""
 			for _, o := range others {
